@@ -6,6 +6,7 @@ garbage, calls on unknown objects/members and calls to methods raising nasty exc
 after the handshake, interleaved by the seeded scheduler with the witness traffic.
 """
 import marshal
+import socket
 import threading
 import zlib
 
@@ -364,6 +365,7 @@ class HostileWorld(World):
         victim = Victim(sched)
         uri = srv.register(victim, "tok")
         bound = [0]
+        stalled = []
         lat = [0.0]
         stop = [False]
         wres = {}
@@ -471,8 +473,27 @@ class HostileWorld(World):
                 sk.rst()
             else:
                 if peer["end"] == "stall" and plan["commtimeout"]:
+                    # stays connected and silent: with a COMMTIMEOUT configured the daemon itself must end this connection
+                    # (otherwise the worker / selector slot is held for as long as the peer likes)
                     ctx.probe("stalling_peer")
-                    sched.sleep(plan["commtimeout"] * 8)
+                    t0 = sched.now
+                    sk.settimeout(plan["commtimeout"] * 8)
+                    ended = None
+                    try:
+                        while True:
+                            if not sk.recv(4096):
+                                ended = "eof"
+                                break
+                    except socket.timeout:
+                        ended = None
+                    except OSError:
+                        ended = "reset"
+                    # (the multiplex server only applies the timeout while it is reading a message: an idle connection with
+                    #  no partial message pending may stay; the thread server's worker always sits in a timed read)
+                    last = peer["msgs"][-1] if peer["msgs"] else None
+                    partial = bool(last is not None and last.get("trunc") is not None and len(build_msg(last)) > 0)
+                    if ended is None and (plan["servertype"] == "thread" or partial) and had_handshake:
+                        stalled.append((hi, sched.now - t0))
                 sk.close()
 
         wts = [threading.Thread(target=witness, args=(i,), name="witness%d" % i) for i in range(plan["witnesses"])]
@@ -511,6 +532,9 @@ class HostileWorld(World):
             if lat[0] > limit:
                 ctx.violate("witness-call-too-slow", "", "a witness call took %.2f virtual seconds with COMMTIMEOUT=%.1f and %d hostile peers "
                             "(limit %.2f): a server-side read on a hostile connection did not time out" % (lat[0], plan["commtimeout"], len(plan["peers"]), limit))
+        for hi, dt in stalled:
+            ctx.violate("stalled-connection-not-timed-out", plan["servertype"], "hostile peer %d stayed connected and silent for %.1f "
+                        "virtual seconds with COMMTIMEOUT=%.1f and the daemon never ended the connection" % (hi, dt, plan["commtimeout"]))
         # (b) daemon loop alive and accepting
         if not srv.loop_alive():
             d = srv.loop_death()
